@@ -4,7 +4,9 @@
 Nothing in /repo is edited: the pre-resolution snapshot is taken by wrapping House.resolve from outside, the token
 lists of the commands are logged by wrapping Builder.dispatch from outside.
 """
+import json
 import os
+import re
 import traceback
 
 from .. import env
@@ -42,6 +44,45 @@ def install():
         return orig_dispatch(self, tokens)
 
     building.Builder.dispatch = dispatch
+
+
+# ---------------------------------------------------------------- values printed by TLC
+
+_JSTR = re.compile(r'"\{(?:[^"\\\n]|\\.)*\}"')
+
+
+def emitted_json(out):
+    """JSON objects printed by a specification with PrintT(ToJson(...)).
+
+    Several TLC workers write to stdout concurrently and the text and its line end are written separately, so two
+    values can land on one line (followed by empty lines): the values are therefore found as string literals anywhere
+    in the output, not line by line.  A literal that does not decode (characters of two writes interleaved) is skipped;
+    callers compare the number of values with an independent count and repeat the run with one worker if it differs."""
+    rows = []
+    for m in _JSTR.finditer(out):
+        try:
+            v = json.loads(json.loads(m.group(0)))
+        except ValueError:
+            continue
+        if isinstance(v, dict):
+            rows.append(v)
+    return rows
+
+
+def run_emitting(run, expected, what):
+    """run(workers) -> TlcResult; expected(res) -> number of values that must have been printed (None: unknown).
+    Returns (res, rows); repeats once with a single worker when values were lost in the output."""
+    res = run(None)
+    rows = emitted_json(res.out)
+    want = expected(res) if res.ok else None
+    if want is not None and len(rows) != want:
+        res = run(1)
+        rows = emitted_json(res.out)
+        want = expected(res) if res.ok else None
+        if want is not None and len(rows) != want:
+            from ..tlc import TlcError
+            raise TlcError("%s: %d values printed, %d expected (also with one worker)" % (what, len(rows), want))
+    return res, rows
 
 
 # ---------------------------------------------------------------- values
@@ -238,8 +279,9 @@ def innermost(tb):
     return where or "harness"
 
 
-def build(text, workdir=None, want_pre=True, want_post=True, want_dispatch=False, keep_skedder=False, period=0.125):
+def build(text, workdir=None, want_pre=True, want_post=True, want_dispatch=False, keep_skedder=False, period=0.125, files=None):
     """Build script `text`. Returns dict(outcome, etype, msg, where, pre, post, dispatch [, skedder]).
+    files: {name: text} written next to the script (targets of `load` commands).
 
     outcome: "built" | "refused" (Builder.build returned False) | "error" (an exception escaped Builder.build;
     etype = its class name, where = innermost ioflo function)."""
@@ -247,6 +289,13 @@ def build(text, workdir=None, want_pre=True, want_post=True, want_dispatch=False
     from ioflo.base import skedding
     workdir = workdir or env.subdir("bscript")
     path = os.path.join(workdir, "s%d.flo" % os.getpid())
+    if files:
+        workdir = os.path.join(workdir, "d%d" % os.getpid())     # loaded files keep their names: one directory per process
+        os.makedirs(workdir, exist_ok=True)
+        path = os.path.join(workdir, "s.flo")
+        for name, t in files.items():
+            with open(os.path.join(workdir, name), "w") as f:
+                f.write(t)
     with open(path, "w") as f:
         f.write(text)
     _state["pre"] = [] if want_pre else None
